@@ -1,0 +1,45 @@
+//go:build verif
+
+package signaller
+
+import "time"
+
+// This file exposes the signaller's polling step to the verification harness (build tag "verif").
+
+// VerifRefresh runs the unmodified state refresh (params, current feeds, validator prices).
+func (s *Signaller) VerifRefresh() bool { return s.updateInternalVariables() }
+
+// VerifExecuteAt performs the steps of execute() with an injected clock instead of time.Now():
+// the filtering, decision and hand-off functions it calls are the unmodified ones.
+func (s *Signaller) VerifExecuteAt(now time.Time) {
+	nonPendingSignalIDs := s.getNonPendingSignalIDs()
+	if len(nonPendingSignalIDs) == 0 {
+		return
+	}
+
+	res, err := s.bothanClient.GetPrices(nonPendingSignalIDs)
+	if err != nil {
+		return
+	}
+
+	signalPrices := s.filterAndPrepareSignalPrices(res.Prices, nonPendingSignalIDs, now)
+	if len(signalPrices) == 0 {
+		return
+	}
+
+	s.submitPrices(signalPrices, res.Uuid)
+}
+
+// VerifExecuteNow runs the unmodified wall-clock execute().
+func (s *Signaller) VerifExecuteNow() { s.execute() }
+
+// VerifAssignedTime exposes the send-slot computation for the configured validator.
+func (s *Signaller) VerifAssignedTime(interval, timestamp int64) time.Time {
+	return calculateAssignedTime(
+		s.valAddress,
+		interval,
+		timestamp,
+		s.distributionOffsetPercentage,
+		s.distributionStartPercentage,
+	)
+}
